@@ -6,7 +6,7 @@ import ast
 
 import sympy as sp
 
-from ..core import AnalysisError, call_name, unparse, walk_no_nested
+from ..core import named_args, AnalysisError, call_name, unparse, walk_no_nested
 from ..degree import ALPHA, LOGZERO, MU, MUM, A, V, analyse
 from ..report import Ctx
 from .c05 import CNL, NESTED
@@ -174,8 +174,7 @@ super().__init__(choice_set, tuple_of_nests)
         okc = False
         if len(conv) == 1:
             c = conv[0].value
-            kw = {k.arg: unparse(k.value) for k in c.keywords}
-            okc = kw == {'choice_set': f'list({ut})', 'tuple_of_nests': np_} and not c.args
+            okc = named_args(c) == {'choice_set': f'list({ut})', 'tuple_of_nests': np_}
             # guarded by `not isinstance(nests, cls)`
             guard = [n for n in walk_no_nested(f.node) if isinstance(n, ast.If) and conv[0] in n.body]
             okc = okc and len(guard) == 1 and unparse(guard[0].test) == f'not isinstance({np_}, {cls})'
